@@ -11,7 +11,14 @@ for d in sorted(glob.glob('/verif/seeded/*/meta.json')):
     first=m.get('check_first_run',{}).get('detected')
     what=(m.get('what_it_breaks') or '').replace('\n',' ').replace('|','/')
     what=what[:140]+('…' if len(what)>140 else '')
-    rows.append("| %s | %s | %s | %s |"%(n, what, '; '.join('`%s`'%o for o in ob), 'yes' if not first or first=='yes' else 'only after strengthening (first run: missed)'))
+    now=m['check'].get('detected')
+    if now=='yes':
+        det='yes' if not first or first=='yes' else 'only after strengthening (first run: missed)'
+    elif m['check'].get('status')=='exit=2':
+        det='undecided (exit 2)' + (': was detected before failed obligations of mismatched contracts became UNDECIDED' if 'check_before_undecided_policy' in m else '')
+    else:
+        det='**missed**'
+    rows.append("| %s | %s | %s | %s |"%(n, what, '; '.join('`%s`'%o for o in ob), det))
 hdr="| seed | what it breaks | obligations that fail (first two) | detected |\n|------|----------------|-----------------------------------|----------|\n"
 i=s.index(hdr)+len(hdr)
 j=s.index("\n\nSeven seeds of the first round were missed", i)
